@@ -1,3 +1,4 @@
+import RSV.Props.C17funcs
 import RSV.Props.C05
 import RSV.Props.C04gf8
 import RSV.Props.C04range
